@@ -230,7 +230,11 @@ func solveScript(dir, name string, sc *Script, perQueryMs int, total time.Durati
 			go func(sp solverSpec, file string) {
 				defer wg.Done()
 				solverSem <- struct{}{}
-				r := runSolver(cctx, sp, file, 500, time.Duration(nCovers)*1000*time.Millisecond+20*time.Second, func(id int, res string) {
+				coverMs := 500
+				if nCovers > 12 {
+					coverMs = 200
+				}
+				r := runSolver(cctx, sp, file, coverMs, time.Duration(nCovers)*1000*time.Millisecond+20*time.Second, func(id int, res string) {
 					onResult(id, res)
 				})
 				ccancel() // the first cover run to finish ends the other one
